@@ -503,7 +503,7 @@ class Text(Suite):
     oeq = "tobs_eqb"
     spec = "tspec_ok"
     kf = "tkf"
-    kf_ids = {1: "F7a", 2: "F7b", 4: "F7d", 5: "F7e", 7: "F7h"}
+    kf_ids = {1: "F7a", 7: "F7h"}
     corr = ("URIRef.n3, BNode.n3, Variable.n3, Literal.n3/_literal_n3/_quote_encode, util.from_n3, "
             "__reduce__ of the four classes + constructors")
     quick_n = 900
